@@ -51,6 +51,12 @@ def main():
             ctx.notes["build_log_tail"] = blog[-1500:]
             broken.append(("build", "the Coq development needed by this check does not build: " + blog[-800:]))
 
+        if tier == "thorough":
+            ok_chk, summ = core.coqchk(pid)
+            ctx.notes["coqchk"] = summ
+            if not ok_chk:
+                broken.append(("coqchk", "coqchk -o on props/%s.vo: %s" % (pid, summ)))
+
         # 2. source facts regenerated from /repo and compared with the constants the model was proved with
         from . import srcfacts
         sf = srcfacts.check(ctx, getattr(mod, "SRCFACTS", []))
